@@ -110,10 +110,10 @@ def build_jobs(tier, rep):
 
 def run(tier, rep):
     jobs = build_jobs(tier, rep)
-    res = C.pmap(record, jobs, chunk=400)
-    traces = [r[0] for r in res]
-    verdicts, st = C.validate_traces("SourceMapTrace", traces, shard=15000)
-    rep.tlc_stats("SourceMapTrace", st, len(traces))
+    verdicts, st, counts, traces = C.run_sliced(record, jobs, "SourceMapTrace", trace_of=lambda r: r[0], keep=lambda r: r[1],
+                                                shard=15000)
+    res = [(None, c) for c in counts]
+    rep.tlc_stats("SourceMapTrace", st, len(jobs))
     for job, (v, pos) in zip(jobs, verdicts):
         if v != "ok":
             rep.violation(f"{v}:{job[0]}:{json.dumps(job[1])}",
